@@ -30,3 +30,17 @@ def keepalive():
 
 def route_refresh(afi, res, safi, msg_type=T_ROUTE_REFRESH):
     return header(msg_type, S.cat(S.be(afi, 2), S.be(res, 1), S.be(safi, 1)))
+
+
+def notification_any_data(code, sub):
+    """a NOTIFICATION with the given code/subcode and ANY data field (the properties fix code and subcode only)"""
+    import z3
+    from pyvc.contracts import Any
+    from pyvc.values import SBytes, to_term
+
+    def pred(got):
+        g = SBytes.of(got)
+        return z3.And([g.len >= 21, g.len <= MAX_LEN] + [g.at(i) == 255 for i in range(16)] +
+                      [g.be_int(16, 2) == g.len, g.at(18) == T_NOTIFICATION, g.at(19) == to_term(code),
+                       g.at(20) == to_term(sub)])
+    return Any(pred, 'NOTIFICATION(%s,%s,*)' % (code, sub))
